@@ -1,8 +1,7 @@
 import RtenVerif.Lemmas.ControlFlowSim4
 
 /-!
-# `runPlan = evalG` over whole nested runs (C24.T1, fragment: no in-place operators, no
-re-capture)
+# `runPlan = evalG` over whole nested runs (C24.T1)
 -/
 namespace RtenVerif.ControlFlow
 
@@ -71,7 +70,7 @@ theorem runPlan_refines (S : Sem P V) (hS : ∀ k, (S.inPlaceIdx k).length ≤ 1
     intro g args E σ hwf
     simp [wfG] at hwf
   | f + 1 => by
-    intro g args E σ hwf hshadow hhead hfree
+    intro g args E σ hwf hshadow hhead honce hfree
     have ih := runPlan_refines S hS f
     obtain ⟨hnd, hond, hout, hops⟩ := wfG_succ f g hwf
     have hind : g.inputs.Nodup := by
@@ -97,7 +96,7 @@ theorem runPlan_refines (S : Sem P V) (hS : ∀ k, (S.inPlaceIdx k).length ≤ 1
     have inv0 : Inv g (borrowedArgs g.inputs args ++ g.consts) σ g.ops
         { temp := ownedArgs g.inputs args, rc := rcInit g, env := E }
         (g.inputs.zip (args.map (·.2)) ++ g.consts) := by
-      refine ⟨fun n hn => (hshadow n hn).1, hhead, rcInv_init g _ _, ?_, ?_, ?_, ?_⟩
+      refine ⟨fun n hn => (hshadow n hn).1, hhead, honce, rcInv_init g _ _, ?_, ?_, ?_, ?_⟩
       · intro n hn
         simp only [Graph.valueDefs, List.mem_append]
         left; exact look_ownedArgs_key _ _ _ hn
